@@ -102,6 +102,7 @@ class Ctx:
         self.loop_cache = {}
         self.cur_module = None
         self.cur_class = None
+        self.hidden_state = []
 
     # ------------------------------------------------------------------------------------------------ sources
     def _accessors(self):
@@ -418,7 +419,12 @@ class Ctx:
                         ex.notes.append("helper method self.%s() has no contract: inlined at line %s" % (mname, getattr(e, "lineno", "?")))
                         res.extend(self.inline(ex, e, fdef, [obj] + list(args), kwargs, p2))
                     else:
-                        raise Unsupported("method .%s has no assumed contract" % mname, e)
+                        # a library method without a specific contract: a pure, possibly failing function of receiver and arguments
+                        # (all mutating methods of the builtin containers are handled above); recorded as assumed
+                        ex.notes.append("method .%s() has no specific contract: treated as a pure partial function (line %s)" % (mname, getattr(e, "lineno", "?")))
+                        self.assumed.add("A-cpython")
+                        res.extend(lib.partial(ex, p2, e, "um_" + mname + "".join("_" + k for k in sorted(kwargs)), obj, *args,
+                                               *[v for k, v in sorted(kwargs.items())]))
             return res
         if isinstance(f, (ast.Subscript, ast.Call)):
             res = []
@@ -468,6 +474,13 @@ class Ctx:
         return [(app(n, *[asV(a) for a in args]), p)]
 
     def inline(self, ex, e, fdef, args, kwargs, p, closure_env=None):
+        for d in getattr(fdef, "decorator_list", []):
+            dn = ast.unparse(d)
+            if any(w in dn for w in ("lru_cache", "cache", "memo")):
+                # memoisation keeps results across calls (keyed by == and hash): hidden module state
+                self.hidden_state.append((fdef.name, getattr(e, "lineno", 0), dn))
+            elif dn not in ("staticmethod", "classmethod", "property"):
+                raise Unsupported("helper %s has decorator %s" % (fdef.name, dn), e)
         if self.inline_depth > 6:
             raise Unsupported("inlining depth exceeded at %s" % fdef.name, e)
         names = [a.arg for a in fdef.args.args]
